@@ -54,3 +54,24 @@ def runP {β} (p : P β) (args : List String) : Option β :=
   | none => none
 
 end FV.Drv
+
+namespace FV.Drv
+
+partial def loop (handle : String → String) (hin hout : IO.FS.Stream) : IO Unit := do
+  let line ← hin.getLine
+  if line.isEmpty then return ()
+  let l := (line.replace "\n" "").replace "\r" ""
+  hout.putStrLn (handle l)
+  loop handle hin hout
+
+/-- read requests from stdin until EOF, one reply line per request. -/
+def mainLoop (handle : String → String) : IO Unit := do
+  loop handle (← IO.getStdin) (← IO.getStdout)
+
+/-- split a request line into `mode`, `op`, `args`. -/
+def splitReq (line : String) : Option (String × String × List String) :=
+  match (line.splitOn " ").filter (· ≠ "") with
+  | mode :: op :: args => some (mode, op, args)
+  | _ => none
+
+end FV.Drv
